@@ -110,7 +110,9 @@ def run(c):
     cases = []
 
     def pol(allow, trace, default, klass):
-        cases.append({"id": len(cases), "kind": "build", "allow": allow, "trace": trace, "default": default, "_klass": klass})
+        # two of three builds go through one long-lived Builder value, the others through a fresh one
+        cases.append({"id": len(cases), "kind": "build", "allow": allow, "trace": trace, "default": default, "_klass": klass,
+                      "reuse": len(cases) % 3 != 0})
 
     def subset(k):
         return r.sample(names, k)
@@ -162,7 +164,19 @@ def run(c):
         else:
             t = t + [r.choice(a)]
         pol(a, t, r.choice([1, 3, 4]), "malformed")
-    obs = c.run_harness(exe, [{k: v for k, v in x.items() if not k.startswith("_")} for x in cases], timeout=900)
+    obs = c.run_harness(exe, [{k: v for k, v in x.items() if not k.startswith("_")} for x in cases] + [{"id": len(cases), "kind": "recheck"}], timeout=900)
+    recheck = obs.pop()
+    c.cov["filters_held_and_read_again_after_all_builds"] = recheck["held"]
+    for ch in recheck["changed"]:
+        x = cases[ch["id"]]
+        a_n = [num_of[n] for n in x["allow"] if n in num_of]
+        t_n = [num_of[n] for n in x["trace"] if n in num_of]
+        bad = oracle(ch["now"], a_n, t_n, action_ret(x["default"]), sorted(set(nums))) or {}
+        c.finding_or_violation(dict({"kind": "filter-changed-after-later-builds",
+                                     "what": "a filter returned by Build no longer has the content it was returned with once later Builds ran"}, **bad),
+                               {"policy": {k: v for k, v in x.items() if not k.startswith("_")}, "filter_when_returned": obs[ch["id"]].get("filter"),
+                                "filter_now": ch["now"], "builds_in_this_process": [{k: v for k, v in y.items() if not k.startswith("_")} for y in cases[:ch["id"] + 40]]})
+        break
 
     # ---- oracle on the implementation's output
     allnums = sorted(set(nums))
